@@ -41,6 +41,11 @@ Fixpoint tok_ops (fuel : nat) (ops : list N) (s : tsys) (n : N) (own srv stl kpl
              else (2, s, n, own, srv, ins x stl, (if op =? 9 then ins x kpl else kpl), dead, nclones))
           else (2, s, n, own, srv, stl, kpl, dead, nclones)
         | 6 => (2, drop_token x s, n, own, filter (fun j => negb (j =? x)) srv, filter (fun j => negb (j =? x)) stl, kpl, dead, nclones)
+        | 11 | 12 =>
+          (* token x leaves by unwinding (a panicking handler inside its connection task / an unrelated panic in the frame that holds
+             it): a release like any other *)
+          if memNb x srv || memNb x stl then (2, s, n, own, srv, stl, kpl, dead, nclones)
+          else (2, drop_token x s, n, own, srv, stl, kpl, dead, nclones)
         | 10 =>
           (* the stalled connection x gets its epilogue out: the request in flight is completed; the connection ends unless it had
              KeepConn and its runner is still running (then it idles like after op 5) *)
